@@ -1,4 +1,4 @@
-module lowverif/ssa2lean4
+module lowverif/ssa2lean5
 
 go 1.22.0
 
